@@ -126,6 +126,8 @@ class JobResult:
             if rec[0] == "out" and rec[2] == "sim" and rec[3].startswith("state-drift"):
                 for key in rec[3].split()[2:]:
                     self.probe("process_state_drift:" + key)
+            elif rec[0] == "out" and rec[2] == "sim" and rec[3].startswith("lossless-"):
+                self.probe("read_monitor:" + rec[3].split()[0])
         self.d["steps"] += count_records(res, "sched") + count_records(res, "op")
         self.d["boundaries"] += count_records(res, "done")
 
